@@ -41,10 +41,12 @@ pub struct Knobs {
     /// XML section directly behind the file header, binary sections behind it (the last section
     /// then ends the file): 0 = never, 1 = offered as a choice, 2 = always
     pub xml_first: u8,
+    /// among the non-data packets also offer an ignored packet of the maximum length (65536 bytes)
+    pub max_ignored: bool,
 }
 impl Knobs {
-    pub const NONE: Knobs = Knobs { packets: false, cuts: false, non_data_packets: false, gaps: false, order: false, proto_attrs: false, xml_lexical: false, max_packets: 1, base_packets: 1, full_gaps: false, first_packet_bytes: 0, xml_first: 0 };
-    pub const ALL: Knobs = Knobs { packets: true, cuts: true, non_data_packets: true, gaps: true, order: true, proto_attrs: true, xml_lexical: true, max_packets: 3, base_packets: 1, full_gaps: true, first_packet_bytes: 0, xml_first: 1 };
+    pub const NONE: Knobs = Knobs { packets: false, cuts: false, non_data_packets: false, gaps: false, order: false, proto_attrs: false, xml_lexical: false, max_packets: 1, base_packets: 1, full_gaps: false, first_packet_bytes: 0, xml_first: 0, max_ignored: false };
+    pub const ALL: Knobs = Knobs { packets: true, cuts: true, non_data_packets: true, gaps: true, order: true, proto_attrs: true, xml_lexical: true, max_packets: 3, base_packets: 1, full_gaps: true, first_packet_bytes: 0, xml_first: 1, max_ignored: true };
 }
 
 #[derive(Clone, Debug, Default)]
@@ -149,7 +151,7 @@ impl Enc<'_> {
         if !self.k.non_data_packets {
             return (false, 0);
         }
-        match self.ch.choose(&format!("extra-packet-{pos}"), 10) {
+        match self.ch.choose(&format!("extra-packet-{pos}"), if self.k.max_ignored { 10 } else { 9 }) {
             0 => (false, 0),
             8 => {
                 // a run of packets that complete no point: index, ignored, empty data, ... (10 packets)
